@@ -376,6 +376,11 @@ WITNESS_SCHEMAS = [
      {"count": None, "s": "y"}, "none-for-defaulted-field"),
     ({"type": "array", "items": {"type": "record", "name": "RD2", "fields": [{"name": "f", "type": "double", "default": 1.5}]}},
      [{"f": 2.0}, {"f": None}], "none-for-defaulted-field"),
+    # a tuple hint must give the FULL name of a named branch: the bare short name of a namespaced type names no branch
+    ([{"type": "record", "name": "B", "namespace": "ns", "fields": [{"name": "x", "type": "int"}]}, "null"], ("B", {"x": 1}), "wrong-hint"),
+    ({"type": "array", "items": [{"type": "enum", "name": "a.b.En", "symbols": ["A", "B"]}, "string"]}, [("a.b.En", "A"), ("En", "B")], "wrong-hint"),
+    ([{"type": "fixed", "name": "p.Fx", "size": 2}, "bytes"], ("Fx", b"ab"), "wrong-hint"),
+    ([{"type": "record", "name": "B", "namespace": "ns", "fields": [{"name": "x", "type": "int"}]}, "null"], ("record", {"x": 1}), "wrong-hint"),
     # O1 (observation): omitted bytes field whose default is a JSON string
     ({"type": "record", "name": "RO1", "fields": [{"name": "a", "type": "bytes", "default": "abc"}]}, {}, "missing-defaulted-field"),
 ]
